@@ -131,6 +131,24 @@ func cmdVerify(args []string) {
 	must(err)
 	bad := 0
 	for _, name := range fs.Args() {
+		if strings.HasPrefix(name, "method ") || strings.HasPrefix(name, "functype ") {
+			var rs []*FnResult
+			if strings.HasPrefix(name, "method ") {
+				rs = verifyMethodImpls(P, db, strings.TrimPrefix(name, "method "), *timeout)
+			} else {
+				rs = verifyFuncTypeImpls(P, db, strings.TrimPrefix(name, "functype "), *timeout)
+			}
+			for _, r := range rs {
+				printResult(r, *verbose)
+				for _, o := range r.Obligs {
+					if o.Failed+o.Undec > 0 {
+						bad++
+					}
+				}
+				bad += len(r.Errors)
+			}
+			continue
+		}
 		fn := P.funcs[name]
 		if fn == nil {
 			fmt.Println("no such function:", name)
